@@ -170,6 +170,11 @@ def run_check(chk, replay, prop, gen_cases, evaluate, rule, model_ops=('dec', 'r
             d = gencorr.compare(gb, c, o, m)
             if d:
                 mism.append((c, o, m, d))
+    # a case the property oracle already reports (a real failure, or one attributed to a known class: e.g. a re-typed union
+    # variant read by the declared type's reader, whose bogus element count then aborts the async decoder's preallocation)
+    # is a failing input, not a model disagreement without one
+    flagged = set(id(c) for c, _, _, _ in failing)
+    mism = [x for x in mism if id(x[0]) not in flagged]
     for c in cases:
         chk.count(c['line'], c.get('nontrivial', True))
     for i in (0, len(cases) // 2, len(cases) - 1):
